@@ -267,6 +267,18 @@ def random_exit(seed, tier):
             for _ in range(n_walks):
                 walks.append(random_key_walk(rng, cfg, length, notes + others, ["KEY_F2"], p_action=0.1, exit_free=False))
             batches.append({"cfg": cfg, "cfgmode": "literal", "sub": "", "walks": walks})
+    # a device that also delivers buttons (mouse / joystick sub-handler): key codes from 0x100 on, among them the codes of
+    # the sequence's keys + 256 and + 512 - other keys, whatever a compact set of held keys makes of them
+    codes = {"KEY_ESC": 1, "KEY_LEFTALT": 56, "KEY_Z": 44, "KEY_RIGHTSHIFT": 54}
+    for exitseq in (None, ["KEY_ESC", "KEY_Z", "KEY_RIGHTSHIFT"]):
+        cfg = factory_keyboard_cfg("interrupt")
+        if exitseq is not None:
+            cfg["exit"] = exitseq
+        alias = ["x%x" % (codes[k] + off) for k in cfg["exit"] for off in (256, 512)]
+        others = sorted(set(cfg["exit"]) | set(alias) | {"BTN_LEFT", "BTN_SOUTH"})
+        walks = [random_key_walk(rng, cfg, length, ["KEY_X"] + others, ["KEY_F2"], p_action=0.05, exit_free=False)
+                 for _ in range(max(10, n_walks // 2))]
+        batches.append({"cfg": cfg, "cfgmode": "literal", "sub": "", "walks": walks})
     return batches
 
 
@@ -636,6 +648,28 @@ def c08_batches(seed, tier, cfgmode="literal"):
                     w.append({"ev": "disconnect"})
                 walks.append(w)
             batches.append({"cfg": cfg, "cfgmode": cfgmode, "sub": "", "walks": walks})
+    return batches
+
+
+def unnamed_axis_batches(seed, tier, cfgmode="literal"):
+    """Axes whose evdev codes have no symbolic name (ABS_MISC+1.., written x29, x2a .. in a configuration): the extra
+    axes of many-axis controllers.  Each emulates its own keys; deflections overlap in time."""
+    rng = random.Random(seed * 941 + 13)
+    names = ["x29", "x2a", "x2b", "x3e"]
+    batches = []
+    for flip in (False, True):
+        ax = {a: axis("key", note=40 + 5 * i, noteNeg=80 + 5 * i, off=i, offNeg=(i + 2) % 16, bidi=True, flip=flip, dzn=0, dzd=1)
+              for i, a in enumerate(names)}
+        info = {a: {"min": -100, "max": 100} for a in names}
+        cfg = base_cfg(dChan=rng.randrange(16), maps=[{"name": "M1", "keys": {}, "axes": ax}], axinfo=info)
+        walks = []
+        for _ in range(6 if tier == "quick" else 40):
+            w = []
+            for _ in range(80):
+                w.append({"ev": "axis", "a": rng.choice(names), "raw": rng.choice([-100, 100, 0, 0, 70, -70, 30])})
+            w += [{"ev": "axis", "a": a, "raw": 0} for a in names]
+            walks.append(w)
+        batches.append({"cfg": cfg, "cfgmode": cfgmode, "sub": "", "walks": walks})
     return batches
 
 
